@@ -215,7 +215,7 @@ def _getvars_program(it, fg):
 
 def r5(idx, rep):
     fi = idx.method("ResultsManager", "data_file_for_reference")
-    rep.analysed(fi, idx.method("ResultsManager", "_find_instance"))
+    rep.analysed(fi, *K.opt(idx, "ResultsManager", "_find_instance"))
     fs = c10.FS(["ARCH", "ARCH/p", "ARCH/p/2026-01-02_03-04-05", "ARCH/p/2026-01-02_03-04-05/one", "ARCH/p/2026-01-02_03-04-05/one/data.csv",
                  "ARCH/p/2026-01-02_09-00-00", "ARCH/p/2026-01-02_09-00-00/one", "ARCH/p/2026-01-02_09-00-00/one/data.csv"])
     bad = None
@@ -233,7 +233,7 @@ def r5(idx, rep):
     rep.check(bad is None, "R5", f"{fi.file}::ResultsManager.data_file_for_reference model archive", bad or "", K.where(fi, fi.node))
     # the reference parser itself: parts of the documented reference forms (member identities may contain dots)
     fp = idx.method("ReferenceParser", "parse")
-    rep.analysed(fp, idx.method("ReferenceParser", "_names_from_name"), idx.method("ReferenceParser", "_set_names"), idx.method("ReferenceParser", "_set_root"))
+    rep.analysed(fp, *K.opt(idx, "ReferenceParser", "_names_from_name"), *K.opt(idx, "ReferenceParser", "_set_names"), *K.opt(idx, "ReferenceParser", "_set_root"))
     table = [
         ("$chain.results.2026-01-02_03-04-05.two", dict(root_major="chain", root_minor=None, datatype="results", name_one="2026-01-02_03-04-05", name_three="two")),
         ("$chain.results.2026-01-02_:last.two.v2", dict(root_major="chain", datatype="results", name_one="2026-01-02_:last", name_three="two.v2")),
